@@ -416,15 +416,21 @@ RT_RULES = [
     Sub(r"\bwait_finalize\(\);", "wait_finalize(self);", None),
     Sub(r"\bwait_condition_\.notify_all\(\);", "stdcv_notify_all();", None),
     Sub(r"\bwait_condition_\.wait\((\w+), \[&\] \{ return (\w+); \}\);", r"STDCV_WAIT_UNTIL(\1, self->\2)", None),
+    # the wait WITHOUT a predicate: one blocking wait that may also end spuriously (std::condition_variable::wait)
+    Sub(r"\bwait_condition_\.wait\((\w+)\);", r"stdcv_block(&\1);", None),
     Guard(r"std::unique_lock<std::mutex> (\w+)\(mtx_\);", r"struct ulock \1 = ulock_make(self->mtx_p);", r"ulock_dtor(&\1);", None),
     Members(["stop_called_", "stop_done_", "result_"], optional=["stop_called_", "stop_done_", "result_"]),
 ]
+RT_WAIT_LOOP = ("__CPROVER_assigns(vx_rt->stop_called_, vx_rt->stop_done_, g_releases, g_blocks, l.owns, g_mtx.held)\n"
+                "__CPROVER_loop_invariant(l.owns && l.m == &g_mtx && g_mtx.held && g_blocks >= 0 && g_blocks <= 2 && g_releases >= 0 && g_releases <= 2)")
 for (nm, loc, fn, d) in [("rt.notify_finalize", r"void runtime::notify_finalize\(\)", "notify_finalize", "U_NOTIFY_FINALIZE"),
                          ("rt.wait_finalize", r"void runtime::wait_finalize\(\)", "wait_finalize", "U_WAIT_FINALIZE"),
                          ("rt.wait", r"int runtime::wait\(\)", "rt_wait", "U_WAIT"),
                          ("rt.suspend", r"void runtime::suspend\(\)", "rt_suspend", "U_SUSPEND"),
                          ("rt.resume", r"void runtime::resume\(\)", "rt_resume", "U_RESUME")]:
-    UNITS.append(Unit(nm, "runtime.c", defines=[d], enforce=fn, lifts={"body": Lift(RTCPP, loc, rules=RT_RULES)},
+    UNITS.append(Unit(nm, "runtime.c", defines=[d], enforce=fn, lifts={"body": Lift(RTCPP, loc, rules=RT_RULES,
+                      # a hand-written re-check loop around the plain wait (equivalent to the predicate form) gets the same loop contract
+                      loops={"by_pattern": [(r"while\s*\(\s*!\s*(?:self->)?stop_done_\s*\)", RT_WAIT_LOOP, False)]} if d == "U_WAIT_FINALIZE" else None)},
                       loop_contracts=(d == "U_WAIT_FINALIZE"),
                       funcs=[RTCPP + ": pika::runtime::" + loc.split("::")[1].split("\\")[0]], min_obligations=5))
 # ---- runtime::start / run_helper (added by main after seeded change C05-3 was missed) ----------------------------------------------
